@@ -10,59 +10,61 @@ E1_NOTE = ("Bounded: 'confirmed' means CrossHair exhausted every feasible path o
            "per-property oracle. Every counterexample is replayed concretely against /repo before it is reported.")
 
 CLAIMED = {
-    'C01': dict(text="from_data is executed symbolically for 50 type expressions (to depth 2-3, incl. 8 dataclass shapes) and 10 groups of "
+    'C01': dict(text="from_data is executed symbolically for 57 type expressions (to depth 2-3, incl. 8 dataclass shapes, mixin enums, sequence-keyed "
+                     "mappings), subscripted generic dataclasses against hand-written monomorphic classes, and 12 groups of "
                      "equivalent spellings on symbolic interchange values (valid, near-valid and arbitrary: the kind at every position is "
                      "a solver variable); on every feasible path the verdict must equal membership under a 200-line reference model written "
                      "from the documentation, the result must be the deep exactly-typed image, a second call must agree, and nothing but "
-                     "ConvertError may escape.",
-                design_ref="DESIGN.md 5/C01", technique="symbolic execution (CrossHair+z3) vs reference model of the documented rules"),
+                     "ConvertError may escape; call histories over equal-comparing types (nested union in the other order) must not matter. "
+                     "Thorough: + 24 type expressions of depth 3 drawn from the grammar with VERIF_SEED.",
+                design_ref="DESIGN.md 5/C01, 10.4", technique="symbolic execution (CrossHair+z3) vs reference model of the documented rules"),
     'C02': dict(text="The matrix kind(value) x kind(target) x embedding context of the property is checked cell by cell: the value's kind is a "
                      "symbolic selector over 12 kinds with symbolic content, acceptance must coincide with the literal allowed-relation table.",
                 design_ref="DESIGN.md 5/C02", technique="symbolic execution (CrossHair+z3) vs allowed-relation table"),
-    'C03': dict(text="Symbolic execution of the real try_convert/collect_errors pair of every converter class (48 instances: "
+    'C03': dict(text="Symbolic execution of the real try_convert/collect_errors pair of every converter class (64 instances: "
                      "17 classes, 3 tag layouts, both dataclass layouts, hooks, raising predicates/constructors, re.compile "
                      "stubbed) over symbolic interchange values; z3 decides every branch and the obligation is discharged "
                      "only when all paths are exhausted. Oracle is the code against itself, so no spec risk.",
                 design_ref="DESIGN.md 5/C03", technique="symbolic execution (CrossHair+z3) of both passes, relational oracle"),
     'C04': dict(text="Symbolic execution of the public entry points (from_data, convert, Converter.convert) over symbolic interchange "
                      "values including adversarial leaves (unhashable/odd-kinded tags, keys, literals; non-dict Mappings; hooks and "
-                     "predicates raising any of 9 exception classes); the verdict is the class of the escaping exception. Type-building "
+                     "predicates raising any of 9 exception classes; keys / set elements / enum values whose converted image is unhashable; several odd keys of unorderable kinds; converters first reached by the diagnostic pass); the verdict is the class of the escaping exception. Type-building "
                      "clauses are enumerated assertions inside the same run.",
                 design_ref="DESIGN.md 5/C04", technique="symbolic execution (CrossHair+z3) of the entry points, exception-class oracle"),
     'C09': dict(text="Symbolic execution of both passes, convert(), into_data() and dataclass construction on symbolic containers "
                      "(CrossHair's list/dict proxies model in-place mutation), with a deep type-tagged snapshot compared before/after on "
-                     "every path; includes nested tagged unions and mappings whose reads can insert (defaultdict).",
+                     "every path; includes nested tagged unions, mappings whose reads can insert (defaultdict), and conversions that follow a failed or successful convert()/constructor call (module state).",
                 design_ref="DESIGN.md 5/C09", technique="symbolic execution (CrossHair+z3), before/after snapshot oracle"),
-    'C11': dict(text="For 20 overlap-rich unions and their spellings, symbolic values are run through the union and through each member's own "
+    'C11': dict(text="For 27 overlap-rich unions (incl. members left of None that accept None) and their spellings, symbolic values are run through the union and through each member's own "
                      "converter built separately; z3 decides which members accept, and the union must equal the left-most accepting one, "
-                     "on every path; serialisation must coincide with an accepting member's.",
+                     "on every path; serialisation must coincide with an accepting member's; serialisation and alias-order histories, and unions mentioning a type variable after substitution.",
                 design_ref="DESIGN.md 5/C11", technique="symbolic execution (CrossHair+z3), member converters as oracle"),
     'C12': dict(text="The tagged-union converter is executed symbolically on mappings assembled from symbolic parts (tag presence/kind, "
-                     "body fields, layout malformations) for 3 variant sets x 3 layouts; z3 explores every feasible combination and the "
+                     "body fields, layout malformations) for 7 variant sets (incl. a variant subclassing another, a None tag, a second adjacent key pair) x 3 layouts; z3 explores every feasible combination and the "
                      "result/verdict/error tree must be exactly those of the variant named by the tag (its own converter, built "
-                     "separately), and into_data must have the layout's shape and read back.",
+                     "separately), and into_data must have the layout's shape and read back, also when the tagged union is a member of Optional/Union/Dict/Tuple or a dataclass field.",
                 design_ref="DESIGN.md 5/C12", technique="symbolic execution (CrossHair+z3), variant's own converter as oracle"),
-    'C13': dict(text="Each of 35 condition expressions (+7 length conditions, element-type conditions, raising predicates, the pure-python "
-                     "broadcasting rule) is executed on a symbolic int / symbolic float (nan, inf and every boundary are the solver's "
+    'C13': dict(text="Each of 35 condition expressions (+7 length conditions, element-type conditions, conditions inside dataclass field types, raising "
+                     "predicates, the pure-python broadcasting rule) is executed on a symbolic int / symbolic float (nan, inf and every boundary are the solver's "
                      "choice) and compared with the arithmetic predicate written from the documentation, on every path.",
                 design_ref="DESIGN.md 5/C13", technique="symbolic execution (CrossHair+z3) vs arithmetic reference predicates"),
     'C20': dict(engine='pysym',
                 text="The real bodies of rename_field/_split_field_name/split_case/_pairwise and the five joiner lambdas are interpreted from "
                      "the AST of /repo/pane/field.py over vectors of symbolic code points (every character AND every separator position is "
                      "a solver variable); for each feasible path the negated property (canonical spelling, idempotence, back-to-snake and "
-                     "style pairs, refusal of unsplittable names, injectivity on pairs) is asserted and must be unsat. Bounded by name length.",
+                     "style pairs, refusal of unsplittable names also on a repeated call, injectivity on pairs, independence of two consecutive calls) is asserted and must be unsat. Bounded by name length.",
                 design_ref="DESIGN.md 4 and 5/C20",
                 note="Bounded by name length (quick <= 9, thorough <= 12) and ASCII. Trusted: the position-wise models of the str case methods "
                      "and re.split (validated against CPython on every run, exit 2 on mismatch), the 15-line canonical-spelling reference, z3 "
                      "(cvc5 re-decides a sample of the final queries in the thorough tier). Counterexamples are replayed on the real function.",
                 technique="AST-level symbolic interpretation of field.py into QF_LIA, z3 unsat per path; cvc5 cross-check"),
-    'C14': dict(text="For 3 dataclass definitions the supplied subset of fields (presence bits / positional prefix length) and the argument "
+    'C14': dict(text="For 10 dataclass definitions (incl. inherited defaults under shadowing attributes, init=False fields with default / factory, a mutable class whose hook assigns) the supplied subset of fields (presence bits / positional prefix length) and the argument "
                      "values are symbolic; on every path the constructor and the data path (mapping / sequence) must agree with each other and "
                      "with convert(arg, field type), unsupplied fields must hold a fresh default (mutating one instance's default must not "
                      "leak into the next), dict(set_only=True) must equal the supplied set, make_unchecked must store verbatim and the "
-                     "post-init hook must run once per instance.",
+                     "post-init hook must run once per instance. Thorough: + 32 dataclass definitions drawn from a grammar with VERIF_SEED.",
                 design_ref="DESIGN.md 5/C14", technique="symbolic execution (CrossHair+z3), construction paths against each other"),
-    'C15': dict(text="For 8 naming/layout configurations, mapping keys are chosen by the solver from a vocabulary containing every name form "
+    'C15': dict(text="For 13 naming/layout configurations (incl. inherited keyword-only fields in the tuple layout, differing input/output styles with aliases, a subclass of a generic specialisation), mapping keys are chosen by the solver from a vocabulary containing every name form "
                      "the class could know plus foreign ones (0..3 keys), sequences have symbolic length and carrier kind; acceptance, "
                      "binding and output are compared with the property's decision table and hand-written name derivation on every path.",
                 design_ref="DESIGN.md 5/C15", technique="symbolic execution (CrossHair+z3) vs decision table"),
@@ -72,30 +74,30 @@ CLAIMED = {
                      "enforcement, copy/deepcopy/replace preserving value and set-field record, repr.",
                 design_ref="DESIGN.md 5/C16", technique="symbolic execution (CrossHair+z3), stdlib dataclass and tuple order as reference"),
     'C17': dict(text="Class hierarchies are generated from descriptors and compared with a reference merge (order, keyword-only placement, "
-                     "signature, repr, positional binding); for 16 generic instantiations the substituted field types are checked "
+                     "signature, repr, positional binding); for 21 generic instantiations (incl. declared parameter order, two generic bases, keyword-only fields) the substituted field types are checked "
                      "structurally AND enforced: a symbolic value is placed by the solver in any field (directly or inside List/Dict/"
                      "Optional) and acceptance must equal membership in the substituted type; inherited class options are probed on "
-                     "subclasses 1-2 levels down and behind a mixin.",
+                     "subclasses 1-2 levels down and behind a mixin; generic subscription history. Thorough: + 64 generic hierarchies drawn from a grammar with VERIF_SEED, judged by a reference on type trees.",
                 design_ref="DESIGN.md 5/C17", technique="symbolic execution (CrossHair+z3) vs reference merge and substituted-type membership"),
     'C18': dict(text="Every source of a custom converter for int installs a marking converter, so the result names the winner; the sources "
                      "present (16 class families), the call-level form (7) and the nesting are chosen by the solver and every int at every "
                      "depth must carry the mark of the highest-priority present source in both directions; exact-type matching of "
-                     "mapping-form handlers, NotImplemented deferral and the place of registered global handlers are checked the same way.",
+                     "mapping-form handlers, NotImplemented deferral, the place of registered global handlers, one inherited handler at two nesting levels, and dataclasses / ValueOrList reached through unions are checked the same way.",
                 design_ref="DESIGN.md 5/C18", technique="symbolic execution (CrossHair+z3) vs the documented total order"),
-    'C05': dict(text="For 45 types and 7 dataclass layout/renaming/alias/exclusion configurations, symbolic data d is converted, serialised, "
+    'C05': dict(text="For 58 types and 10 dataclass layout/renaming/alias/exclusion configurations (+ unions of same-runtime-type members in sequence, a dataclass and its subclass in one union), symbolic data d is converted, serialised, "
                      "parsed again and serialised again on every feasible path: the serialised form must be interchange data (type-exact), "
                      "read back as the same value, and be stable.",
                 design_ref="DESIGN.md 5/C05", technique="symbolic execution (CrossHair+z3), parse-after-serialise oracle"),
-    'C06': dict(text="convert(convert(d, T), T) == convert(d, T) for 43 types on symbolic data, and convert(x, T) == x (same type) for 26 kinds "
+    'C06': dict(text="convert(convert(d, T), T) == convert(d, T) for 56 types on symbolic data, and convert(x, T) == x (same type) for 38 kinds "
                      "of natively built typed values (containers of symbolic ints, enum members, nested dataclass instances, "
                      "Fraction/Decimal/dates/paths/patterns by symbolic index) including through a dataclass constructor.",
                 design_ref="DESIGN.md 5/C06", technique="symbolic execution (CrossHair+z3), convert against its own input"),
-    'C07': dict(text="For 33 types covering every composite converter, rejected symbolic values are run through the diagnostic pass and the "
+    'C07': dict(text="For 34 types covering every composite converter, rejected symbolic values are run through the diagnostic pass and the "
                      "tree is compared, on every path, with what the element types' own converters (built separately) report for the "
                      "sub-values: children keys = positions rejected on their own, child = element's own tree, missing/extra exact, one "
                      "union child per member in order, leaf.actual = offending value.",
                 design_ref="DESIGN.md 5/C07", technique="symbolic execution (CrossHair+z3), element converters as oracle"),
-    'C08': dict(text="Error trees are produced by real failing conversions whose shape (one or two of 15 fault sites x 4 wrong kinds) is chosen "
+    'C08': dict(text="Error trees are produced by real failing conversions whose shape (one or two of 20 fault sites x 4 wrong kinds) is chosen "
                      "by the solver; rendering must not raise, be stable and leave the tree unchanged, and the text must contain, in nesting "
                      "order, the tokens each injected fault requires (path components, expectation, value, key names, cause message).",
                 design_ref="DESIGN.md 5/C08", technique="symbolic execution (CrossHair+z3) over tree shapes, containment oracle"),
